@@ -90,7 +90,7 @@ inductive NT where
   | binaryInner (prec : Nat) (rhs : Val)
   | castExpression
   | unaryExpression
-  | postfixExpression
+  | postfixExpression (compoundType : Option Val)
   | postfixLoop (e : Val)
   | primaryExpression
   | offsetofLoop (node : Val)
@@ -164,7 +164,7 @@ inductive NT where
   | .binaryInner .. => Val
   | .castExpression => Val
   | .unaryExpression => Val
-  | .postfixExpression => Val
+  | .postfixExpression _ => Val
   | .postfixLoop _ => Val
   | .primaryExpression => Val
   | .offsetofLoop _ => Val
